@@ -212,14 +212,14 @@ fn scenario(limit: usize, kinds: &[End], reverse: bool) -> Result<Res, String> {
             if !kinds.contains(&k) {
                 continue;
             }
-            if let Ok(mut q) = w.connect() {
-                if k == End::Close {
-                    q.close(&w);
-                } else {
-                    q.abort(&w);
-                }
-                events += 1;
+            // (a connection the kernel does not take is the server not accepting: reported by the caller)
+            let mut q = w.connect()?;
+            if k == End::Close {
+                q.close(&w);
+            } else {
+                q.abort(&w);
             }
+            events += 1;
         }
         refresh(&w, &mut conns);
         if let Some(p) = check_served(limit, &conns, "after silent queued clients gave up") {
@@ -241,9 +241,8 @@ fn scenario(limit: usize, kinds: &[End], reverse: bool) -> Result<Res, String> {
     // connections that are reset before the server ever accepted them must not hurt the accept loop
     if kinds.contains(&End::Reset) {
         for _ in 0..2 {
-            if let Ok(mut c) = w.connect_nosettle() {
-                c.abort(&w);
-            }
+            let mut c = w.connect_nosettle()?;
+            c.abort(&w);
         }
         w.settle();
     }
@@ -571,6 +570,32 @@ pub fn check(tier: Tier, threads: usize) -> CheckOutcome {
         }
     }
     events += lcases.len() as u64 * 20;
+    // a crowd: many more clients than slots connect at once and wait; each time a served one leaves,
+    // exactly the next one in line is picked up
+    let mut wcases: Vec<(usize, usize)> = vec![];
+    for l in [1usize, 2, 4] {
+        for n in [3 * l + 6, 40] {
+            wcases.push((l, n));
+        }
+    }
+    let wres = par_map(&wcases, threads, |_, (l, n)| many_waiters_scenario(*l, *n));
+    for ((l, n), r) in wcases.iter().zip(wres.iter()) {
+        match r {
+            Err(er) if er.starts_with("connect:") => {
+                found.entry("waiters|not-queued".into()).or_insert(Violation {
+                    signature: "waiters|not-queued".into(),
+                    what: format!("limit {}: of {} clients connecting at once (listen backlog 128) one could not even connect: {}", l, n, er),
+                    replay: json!({"engine": "c17-waiters"}),
+                });
+            }
+            Err(er) => mach = Some(er.clone()),
+            Ok(Some((sig, what))) => {
+                found.entry(sig.clone()).or_insert(Violation { signature: sig.clone(), what: what.clone(), replay: json!({"engine": "c17-waiters", "limit": l, "clients": n}) });
+            }
+            Ok(None) => {}
+        }
+    }
+    events += wcases.iter().map(|(_, n)| 2 * *n as u64).sum::<u64>();
     let samples: Vec<serde_json::Value> = cases
         .iter()
         .step_by((cases.len() / 5).max(1))
@@ -588,6 +613,7 @@ pub fn check(tier: Tier, threads: usize) -> CheckOutcome {
             "byte_offset_scenarios": offs.len(),
             "queued_silent_client_scenarios": qcases.len(),
             "several_accept_loops_scenarios": lcases.len(),
+            "crowd_scenarios": wcases.len(),
             "transitions": events,
             "traces_validated_against_impl": cases.len(),
             "limits": limits,
@@ -601,6 +627,39 @@ pub fn check(tier: Tier, threads: usize) -> CheckOutcome {
         wall_s: t0.elapsed().as_secs_f64(),
         machinery_error: mach,
     }
+}
+
+/// `n` clients (far more than `limit`, fewer than the listen backlog) connect at once and send a
+/// noop: exactly `limit` are served, the others wait; then the oldest served one leaves, again and
+/// again, and each time exactly the next client in line is picked up.
+fn many_waiters_scenario(limit: usize, n: usize) -> Result<Option<(String, String)>, String> {
+    let w = NetWorld::new(NetCfg { conn_limit: limit as u32, ..Default::default() })?;
+    let name = format!("limit={} clients={}", limit, n);
+    let mut conns: Vec<Conn> = vec![];
+    for i in 0..n {
+        conns.push(open(&w, 0xa00 + i as u32)?);
+    }
+    refresh(&w, &mut conns);
+    if let Some(p) = check_served(limit, &conns, "after all clients connected") {
+        return Ok(Some(("waiters|limit".into(), format!("{}: {}", name, p))));
+    }
+    for i in 0..n {
+        conns[i].c.close(&w);
+        conns[i].alive = false;
+        refresh(&w, &mut conns);
+        if let Some(p) = check_served(limit, &conns, &format!("after client #{} left", i)) {
+            return Ok(Some(("waiters|not-picked-up".into(), format!("{}: {}", name, p))));
+        }
+        // in line: the served ones are the oldest alive
+        let alive: Vec<&Conn> = conns.iter().filter(|c| c.alive).collect();
+        if alive.iter().take(limit).any(|c| !c.served) {
+            return Ok(Some(("waiters|order".into(), format!("{}: after client #{} left a later client is served before an earlier one", name, i))));
+        }
+    }
+    if !w.server_alive() {
+        return Ok(Some(("server-died".into(), format!("{}: the accept loop ended", name))));
+    }
+    Ok(None)
 }
 
 #[allow(dead_code)]
